@@ -422,6 +422,8 @@ def g_shift(rng, K, maxv, ext=False):
     pts = [0, 1, 2, 31, 32, 33, 63, 64, 65, 127, 128, 129, nb // 4, nb // 2 - 1, nb // 2, nb // 2 + 1, nb - 1, nb, nb + 1,
            2 * nb - 1, 2 * nb, 2 * nb + 1, 3 * nb, 255, 256, 65535, 2**31 - 1, 2**32 - 1, 2**63 - 1, 2**63, 2**64 - 1]
     pts = [p for p in pts if p <= maxv]
+    if ext and rng.chance(1, 4):
+        return min(maxv, (nb // 2) + rng.choice([0, 0, -1, 1]))      # defect = 0 and its neighbours for the widening shift
     r = rng.below(3)
     if r == 0:
         return rng.choice(pts)
@@ -520,6 +522,10 @@ def g_div32(rng, K):
     Bv = b1 * Bk + b0
     if rng.chance(1, 3):
         return list(g_two_corrections(rng, Bk))
+    if K == 6 and rng.chance(1, 4):
+        # a2 < b1 with the half-limb digits of (a2, a1) / b1 aimed at two corrections inside __udiv_qrnnd_c
+        x2, x1, x0, y1, y0 = g_two_corrections(rng, 1 << 32)
+        return [x2 * (1 << 32) + x1, x0 * (1 << 32) + rng.bits(32), rng.bits(64), y1 * (1 << 32) + y0, b0]
     r = rng.below(8)
     if r < 3:
         # a2 = b1: the q = B-1 branch
@@ -567,6 +573,11 @@ def gen_args(rng, K, gen, spec):
     if gen == "1s":
         return [rng.choice([g_int(rng, K), Bk - 1 - rng.bits(rng.range(1, n - 1)), h, h - 1, h + 1, Bk - 1])]
     if gen in ("2", "2s"):
+        if spec in ("lmul", "mul", "slmul") and rng.chance(1, 4):
+            # both halves of both operands close to all ones: the middle Karatsuba term exceeds 2^(2^K) (r = 1, rb = rc = 1)
+            sm = lambda: rng.choice([0, 1, rng.bits(8), rng.bits(64)])
+            hb = 1 << (n // 2)
+            return [((hb - 1 - sm()) * hb + (hb - 1 - sm())) % Bk, ((hb - 1 - sm()) * hb + (hb - 1 - sm())) % Bk]
         return [g_int(rng, K), g_int(rng, K)]
     if gen in ("2eq", "2seq"):
         a = g_int(rng, K)
@@ -577,6 +588,11 @@ def gen_args(rng, K, gen, spec):
         x = g_int(rng, K)
         return [x, x]
     if gen == "2c":
+        if rng.chance(1, 5):
+            # second operand all ones (whole or one 128-bit block) with carry/borrow in: result == first operand, the
+            # carry is decided by the `<=` of the ruint<7> specialisation
+            c = Bk - 1 if rng.chance(1, 2) or K < 8 else g_int(rng, K) | (((1 << 128) - 1) << (128 * rng.below(n // 128)))
+            return [g_int(rng, K), c, 1]
         return [g_int(rng, K), g_int(rng, K), rng.below(2)]
     if gen == "3":
         return [g_int(rng, K), g_int(rng, K), g_int(rng, K)]
@@ -655,6 +671,9 @@ def gen_args(rng, K, gen, spec):
         if hi // hb >= b:
             hi = s
         return [hi // hb, (hi % hb) * hb + a0, b]
+    if gen == "div21" and K == 6 and rng.chance(1, 3):
+        a2, a1, a0, b1, b0 = g_two_corrections(rng, 1 << 32)      # first half-limb step of __udiv_qrnnd_c
+        return [a2 * (1 << 32) + a1, a0 * (1 << 32) + rng.bits(32), b1 * (1 << 32) + b0]
     if gen == "div21":
         b = g_divisor(rng, K)
         b = (b << (n - b.bit_length())) % Bk | h          # normalised
@@ -996,7 +1015,7 @@ def branches_of(v, spec, K, a):
 EXPECTED_BRANCHES = [
     ("div32", "div_3_2:2-corrections"), ("div32", "div_3_2:1-corrections"), ("div32", "div_3_2:0-corrections"),
     ("div32", "div_3_2:q=B-1"), ("div32", "div_3_2:q=B-1+carry"), ("div32", "udiv.high-half:1-corrections"),
-    ("div32", "udiv.low-half:1-corrections"), ("div21", "second:div_3_2:2-corrections"),
+    ("div32", "udiv.low-half:1-corrections"), ("div21", "second:div_3_2:2-corrections"), ("div21", "udiv.high-half:2-corrections"), ("div32", "udiv.high-half:2-corrections"),
     ("exp_mod", "exponent with a zero limb below a non-zero limb"), ("exp_mod", "modulus 1"),
     ("shl", "defect>0"), ("shl", "defect<0"), ("shl", "defect=0"), ("shl", "d>size"), ("shl", "d=1"), ("shl", "limb:d>=64"),
     ("shr", "defect>0"), ("shr", "defect<0"), ("shr", "defect=0"), ("shr", "d>size"), ("shl_ext", "defect=0"),
